@@ -22,12 +22,9 @@ RULE = ("pws/decode/factor/sptom/mtosp/strict: every pin word / permutation up t
         "(bit vectors), resp. the word is non-empty (single words); distinct = distinct op lines")
 ASSUMPTIONS = [
     "model/implementation agreement outside the enumerated and sampled inputs is assumed",
-    "the model's determinise/minimise/product pipeline (used for has_finite_pinperms and the canonical automata) is not "
-    "proved language-preserving in Lean; each run compares it with the proved NFA semantics on all words of length <= 7 "
-    "(ops accbits vs accbitsd) and with the library's automata through canonical minimal forms (a complete language "
-    "comparison); the finiteness test itself is proved exact (finite_iff_bounded_cert) for every automaton carrying the "
-    "run-time certificate certB, which the driver checks on each difference automaton",
-    "exploration fuel of the model's constructions is the size of the state-code space (2^n subsets, |A|*|B| pairs)",
+    "the model's determinise/minimise/product pipeline is PROVED language-preserving (C15.pipeline_language, "
+    "has_finite_pinperms_iff_bounded, explore/refine fuel proved sufficient); it is still compared each run with the library's "
+    "automata through canonical minimal forms (a complete language comparison)",
     "automata-lib is used as shipped in /venv; it is exercised only through its public results",
     "the oracle of finpin* speaks only when it can decide: pin sequences avoiding the basis are prefix closed, so if no word "
     "of L(M) of some length <= 10 avoids the basis the answer must be 'finite'",
@@ -38,11 +35,8 @@ PARTIAL = [
     "(bounded test, op sembits) and for random longer words (op accs)",
     "db_equiv: shipped dfa_db automata language-equivalent to the automata computed from scratch -- complete comparison "
     "of canonical minimal automata for every shipped file (ops dbcanon/canondb), not a Lean theorem",
-    "pipeline_language: L(dfaForBasis B) = union of the NFA languages (model's determinise/minimise/product) -- compared "
-    "on all words of length <= 7 each run",
 ]
-TRUSTED = ["automata-lib 7.x (DFA.from_nfa, union, difference, isfinite, accepts_input) - not modelled, results compared",
-           "the model's own subset construction / Moore minimisation / product (executed, not proved)"]
+TRUSTED = ["automata-lib 7.x (DFA.from_nfa, union, difference, isfinite, accepts_input) - not modelled, results compared"]
 
 _TMPROOT = None
 
